@@ -406,11 +406,11 @@ theorem doc_wellformed' (c : Codec) : ∀ g : G, okG g = true → (c = .json ∨
 /-- structural induction for the nested inductive `Json` -/
 theorem Json.ind {P : Json → Prop} (hnull : P .null) (hbool : ∀ b, P (.bool b)) (hnum : ∀ b, P (.num b))
     (hstr : ∀ s, P (.str s)) (harr : ∀ l, (∀ j ∈ l, P j) → P (.arr l))
-    (hobj : ∀ ms : Members, (∀ kv ∈ ms, P kv.2) → P (.obj ms)) : ∀ j, P j := by
+    (hobj : ∀ ms : Members, (∀ kv ∈ ms, P kv.2) → P (.obj ms)) (hbad : P .bad) : ∀ j, P j := by
   intro j
   refine Json.rec (motive_1 := P) (motive_2 := fun l => ∀ j ∈ l, P j)
     (motive_3 := fun ms => ∀ kv ∈ ms, P kv.2) (motive_4 := fun kv => P kv.2)
-    hnull hbool hnum hstr harr hobj ?_ ?_ ?_ ?_ ?_ j
+    hnull hbool hnum hstr harr hobj hbad ?_ ?_ ?_ ?_ ?_ j
   · intro j hj; cases hj
   · intro head tail hh ht j hj
     rcases List.mem_cons.1 hj with rfl | hj
@@ -535,6 +535,34 @@ theorem hasInf_ok : ∀ j : Json, okVal j = true → hasInf j = false := by
 theorem hasInfMembers_ok (ms : Members) (h : okMembers ms = true) : hasInfMembers ms = false :=
   (hasInfMembers_iff ms).2 fun kv hkv => hasInf_ok kv.2 (((okMembers_iff ms).1 h).1 kv hkv)
 
+theorem hasBadList_iff (l : List Json) : hasBadList l = false ↔ ∀ j ∈ l, hasBad j = false := by
+  induction l with
+  | nil => simp [hasBadList]
+  | cons j l ih => simp [hasBadList, ih]
+
+theorem hasBadMembers_iff (ms : Members) : hasBadMembers ms = false ↔ ∀ kv ∈ ms, hasBad kv.2 = false := by
+  induction ms with
+  | nil => simp [hasBadMembers]
+  | cons kv ms ih => obtain ⟨k, v⟩ := kv; simp [hasBadMembers, ih]
+
+/-- a value as Go holds it has no unreadable element -/
+theorem hasBad_ok : ∀ j : Json, okVal j = true → hasBad j = false := by
+  intro j
+  induction j using Json.ind with
+  | harr l ih =>
+    intro h
+    have h' := (okVals_iff l).1 (by simpa [okVal] using h)
+    simpa [hasBad] using (hasBadList_iff l).2 fun j hj => ih j hj (h' j hj)
+  | hobj ms ih =>
+    intro h
+    have h' := (okMembers_iff ms).1 (by simpa [okVal] using h)
+    simpa [hasBad] using (hasBadMembers_iff ms).2 fun kv hkv => ih kv hkv (h'.1 kv hkv)
+  | hbad => intro h; simp [okVal] at h
+  | _ => intros; rfl
+
+theorem hasBadMembers_ok (ms : Members) (h : okMembers ms = true) : hasBadMembers ms = false :=
+  (hasBadMembers_iff ms).2 fun kv hkv => hasBad_ok kv.2 (((okMembers_iff ms).1 h).1 kv hkv)
+
 /-! ### features -/
 
 theorem decode_geomMember (c : Codec) (v : V) (hok : okV v = true) (hb : c = .json ∨ okVB v = true) :
@@ -578,8 +606,8 @@ theorem bboxOf_bboxJ (c : Codec) (bb : List UInt64) (h : bb.all finite = true) :
 theorem fStep_id_some (c : Codec) (j : Json) (st : FSt) (h : okId (some j) = true) :
     fStep c "id" (valOf j) st = .ok { st with id := some j } := by
   cases j <;> simp [okId] at h
-  case num b => simp [fStep, fIdField, fk_id, valOf, hasInf, finite_not_inf h]
-  case str s => simp [fStep, fIdField, fk_id, valOf, hasInf]
+  case num b => simp [fStep, fIdField, fk_id, valOf, hasInf, hasBad, finite_not_inf h]
+  case str s => simp [fStep, fIdField, fk_id, valOf, hasInf, hasBad]
 
 theorem fStep_id_null (c : Codec) (st : FSt) : fStep c "id" .null st = .ok { st with id := none } := by
   simp [fStep, fIdField, fk_id]
@@ -605,7 +633,8 @@ theorem fStep_props_null (c : Codec) (st : FSt) :
 
 theorem fStep_props_obj (c : Codec) (ms : Members) (st : FSt) (h : okMembers ms = true) :
     fStep c "properties" (.obj ms) st = .ok { st with props := some ms } := by
-  simp (config := { decide := true }) [fStep, fPropsField, fk_properties, normVal_ok ms h, hasInfMembers_ok ms h]
+  simp (config := { decide := true }) [fStep, fPropsField, fk_properties, normVal_ok ms h, hasInfMembers_ok ms h,
+    hasBadMembers_ok ms h]
 
 theorem decodeFMembers_append (c : Codec) (ms1 ms2 : Members) (st : FSt) :
     decodeFMembers c (ms1 ++ ms2) st =
